@@ -33,6 +33,7 @@ type AssertAt struct {
 	Callee string // callee name as printed by ssa (suffix match)
 	Nth    int    // 0 = every occurrence, k>0 = k-th occurrence
 	Clause Clause
+	Assume bool // assume-at: an explicitly trusted fact at the call site (listed in evidence)
 }
 
 type Contract struct {
@@ -56,6 +57,7 @@ type Contract struct {
 	Strings  string
 	Owned    []string
 	NoSweep  bool
+	RepoImpls bool // interface method: host implementations are assumed to write no more than the repository's own implementations
 	ResultFuncPure bool // the func value returned modifies nothing when called (assumed)
 	Uses     []string // axioms assumed at entry
 	Counts   []CountSpec
@@ -111,7 +113,16 @@ type RangeSpec struct {
 	Pos     string
 }
 
+type ImmutableSpec struct {
+	Except  []string // functions whose stores were inspected by hand (listed as assumption)
+	Sel     string
+	PkgPath string
+	Pos     string
+	Props   []string
+}
+
 type ContractSet struct {
+	Immutable []*ImmutableSpec
 	Ranges []*RangeSpec
 	GhostNames map[string]bool
 	Axioms   map[string]*AxiomSpec
@@ -126,9 +137,9 @@ type ContractSet struct {
 
 var clauseKeywords = map[string]bool{
 	"requires": true, "ensures": true, "ensures-on-panic": true, "panics-when": true,
-	"nopanic": true, "modifies": true, "loop": true, "assert-at": true, "ghost": true,
+	"nopanic": true, "modifies": true, "loop": true, "assert-at": true, "assume-at": true, "ghost": true,
 	"inline": true, "pure": true, "trusted": true, "property": true, "strings": true,
-	"owned": true, "nosweep": true, "counts": true, "uses": true, "result-func-pure": true,
+	"owned": true, "nosweep": true, "counts": true, "uses": true, "result-func-pure": true, "like-repo-implementations": true,
 }
 
 func loadContracts(pkgs []*packages.Package) *ContractSet {
@@ -185,7 +196,7 @@ func (cs *ContractSet) parseFile(p *packages.Package, f *ast.File, fname string)
 	var items []rawLine
 	for _, l := range lines {
 		w := firstWord(l.text)
-		if w == "func" || w == "functype" || w == "pred" || w == "frame" || w == "lemma" || w == "axiom" || w == "assume-range" || clauseKeywords[w] {
+		if w == "func" || w == "functype" || w == "pred" || w == "frame" || w == "lemma" || w == "axiom" || w == "assume-range" || w == "immutable" || clauseKeywords[w] {
 			items = append(items, l)
 		} else if len(items) > 0 {
 			items[len(items)-1].text += " " + l.text
@@ -243,6 +254,36 @@ func (cs *ContractSet) parseFile(p *packages.Package, f *ast.File, fname string)
 			fs.PkgPath = p.PkgPath
 			fs.Text = rest
 			cs.Frames = append(cs.Frames, fs)
+		case "immutable":
+			// immutable Type.field [property ...]: written only while its object is fresh
+			f := strings.Fields(rest)
+			if len(f) < 1 {
+				cs.errf(it.pos, "immutable Type.field")
+				continue
+			}
+			im := &ImmutableSpec{Sel: f[0], PkgPath: p.PkgPath, Pos: it.pos}
+			rest2 := f[1:]
+			for len(rest2) > 0 {
+				switch rest2[0] {
+				case "property":
+					j := 1
+					for j < len(rest2) && rest2[j] != "except" {
+						im.Props = append(im.Props, rest2[j])
+						j++
+					}
+					rest2 = rest2[j:]
+				case "except":
+					j := 1
+					for j < len(rest2) && rest2[j] != "property" {
+						im.Except = append(im.Except, strings.Trim(rest2[j], ","))
+						j++
+					}
+					rest2 = rest2[j:]
+				default:
+					rest2 = rest2[1:]
+				}
+			}
+			cs.Immutable = append(cs.Immutable, im)
 		case "assume-range":
 			// assume-range Type.field lo hi : every value read from the field lies in [lo, hi)
 			f := strings.Fields(rest)
@@ -341,6 +382,8 @@ func (cs *ContractSet) parseClause(c *Contract, kw, rest, pos string) {
 		c.NoSweep = true
 	case "result-func-pure":
 		c.ResultFuncPure = true
+	case "like-repo-implementations":
+		c.RepoImpls = true
 	case "uses":
 		c.Uses = append(c.Uses, strings.Fields(strings.ReplaceAll(rest, ",", " "))...)
 	case "trusted":
@@ -414,7 +457,7 @@ func (cs *ContractSet) parseClause(c *Contract, kw, rest, pos string) {
 		default:
 			cs.errf(pos, "bad loop clause kind %q", kind)
 		}
-	case "assert-at":
+	case "assert-at", "assume-at":
 		f := strings.Fields(rest)
 		if len(f) < 2 {
 			cs.errf(pos, "bad assert-at")
@@ -428,7 +471,7 @@ func (cs *ContractSet) parseClause(c *Contract, kw, rest, pos string) {
 		}
 		body := strings.TrimSpace(rest[len(f[0]):])
 		if cl, ok := mkClause(cs, body, pos); ok {
-			c.Asserts = append(c.Asserts, AssertAt{Callee: callee, Nth: nth, Clause: cl})
+			c.Asserts = append(c.Asserts, AssertAt{Callee: callee, Nth: nth, Clause: cl, Assume: kw == "assume-at"})
 		}
 	}
 }
